@@ -87,6 +87,8 @@ enum Spec {
     PtyPump { cap: u64, plimit: u64, content: Segs, sizes: Vec<u64> },
     Capture { pmax: u64, amax: u64, content: Segs, sizes: Vec<u64> },
     Lifecycle { codes: Vec<u64> },
+    /// a schedule of the PTY waiter model (Model/TaskLifecycle.v `pact`), derived from the frames of a real PTY task
+    PtyRun { sched: Vec<String> },
     /// a real background task through the router; variant: 0 normal, 1 unsupported tool, 2 invalid args,
     /// 3 post-spawn failure (absolute cwd), 4 shell exits while a background writer still holds stderr,
     /// 5/6/7 the shell exits at once and a descendant that inherited stdout (5) / stderr (6) / both (7)
@@ -101,6 +103,46 @@ enum Spec {
     /// a real foreground `bash` tool run; late_ms > 0: the shell exits at once and a descendant that holds
     /// both pipes writes `err` to stderr `late_ms` later (the tool's captures run to EOF)
     Bash { out: Segs, err: Segs, pmax: u64, amax: u64, exit: u64, late_ms: u64 },
+    /// a real PTY task through the router (`execution_mode: pty`, run_pty_task); see `pty_command` for the shapes
+    PtyTask(PtySpec),
+}
+
+#[derive(Clone, Debug, PartialEq)]
+enum PtyOp {
+    Stdin(Vec<u8>),
+    Resize(u64, u64),
+    Signal(String),
+    Cancel,
+}
+/// when: 0 right after POST /tasks (the task may not have started), 1 while the command certainly runs (it
+/// has touched its `started` marker and is blocked reading the terminal), 2 after the terminal status frame
+#[derive(Clone, Debug, PartialEq)]
+struct PtyStep {
+    when: u64,
+    op: PtyOp,
+}
+/// shape: 0 `cat o; [pause; cat e;] exit N` (bursts), 1 the shell exits while a daemon that left the session
+/// holds the terminal and writes `err` `late_ms` later, 2 the command reads a line from the terminal (echo on,
+/// or off when `raw`) and prints it back, 3 reads a line then prints `stty size`, 4 waits for a signal typed at
+/// the terminal (trap) or sent by the killer, 5 `cat o` then blocks reading: cancelled while running,
+/// 6 prints, then closes all three descriptors and lives on for a while (output ends before the process),
+/// 7 Command spawn fails (PATH without bash), 8 cwd outside the workspace, 9 the log file cannot be created
+/// (its path is a directory; current-thread runtime so that the harness gets there first), 10 like 0 on a
+/// current-thread runtime with an immediate cancel (cancel before run_task subscribed)
+#[derive(Clone, Debug, PartialEq)]
+struct PtySpec {
+    shape: u64,
+    out: Segs,
+    err: Segs,
+    raw: bool,
+    cap: u64,
+    plimit: u64,
+    exit: u64,
+    ops: Vec<PtyStep>,
+    page: u64,
+    late_ms: u64,
+    rows: u64,
+    cols: u64,
 }
 
 fn coq_segs(s: &Segs) -> String {
@@ -112,7 +154,7 @@ fn coq_lev(c: u64) -> String {
         1 => "LRunning".into(),
         2 => "LCancelReq".into(),
         3 => "LCancelled".into(),
-        10 | 11 => format!("LDelta {}", c - 10),
+        10 | 11 | 12 => format!("LDelta {}", c - 10),
         c => format!("LStatus {}", c - 20),
     }
 }
@@ -125,7 +167,8 @@ fn coq_spec(s: &Spec) -> String {
         Spec::Pump { cap, plimit, content, sizes } | Spec::PtyPump { cap, plimit, content, sizes } => format!("CPump {} {} {} {}", cap, plimit, coq_segs(content), coq_list_n(sizes)),
         Spec::Capture { pmax, amax, content, sizes } => format!("CCapture {} {} {} {}", pmax, amax, coq_segs(content), coq_list_n(sizes)),
         Spec::Lifecycle { codes } => format!("CLifecycle {}", coq_list(codes, |c| coq_lev(*c))),
-        Spec::Task { .. } | Spec::Bash { .. } => unreachable!("real runs are compared through derived specs"),
+        Spec::PtyRun { sched } => format!("CPtyRun {}", coq_list(sched, |a| a.clone())),
+        Spec::Task { .. } | Spec::Bash { .. } | Spec::PtyTask(..) => unreachable!("real runs are compared through derived specs"),
     }
 }
 fn coq_case(s: &Spec, expect: &[u64]) -> String {
@@ -144,6 +187,8 @@ fn spec_json(s: &Spec) -> Value {
         Spec::PtyPump { cap, plimit, content, sizes } => json!({"kind": "pty_pump", "cap": cap, "preview_limit": plimit, "content": segs_json(content), "sizes": sizes}),
         Spec::Capture { pmax, amax, content, sizes } => json!({"kind": "capture_stream", "preview_limit": pmax, "cap": amax, "content": segs_json(content), "sizes": sizes}),
         Spec::Lifecycle { codes } => json!({"kind": "lifecycle", "codes": codes}),
+        Spec::PtyRun { sched } => json!({"kind": "pty_run", "sched": sched}),
+        Spec::PtyTask(p) => pty_json(p),
         Spec::Task { variant, out, err, cap, plimit, exit, cancel_after_ms, page, late_ms } => json!({"kind": "task", "variant": variant, "stdout": segs_json(out), "stderr": segs_json(err), "cap": cap, "preview_limit": plimit, "exit": exit, "cancel_after_ms": cancel_after_ms, "page": page, "late_ms": late_ms}),
         Spec::Bash { out, err, pmax, amax, exit, late_ms } => json!({"kind": "bash", "stdout": segs_json(out), "stderr": segs_json(err), "preview_limit": pmax, "cap": amax, "exit": exit, "late_ms": late_ms}),
     }
@@ -166,6 +211,8 @@ fn spec_from_json(v: &Value) -> Option<Spec> {
         "pty_pump" => Spec::PtyPump { cap: g("cap"), plimit: g("preview_limit"), content: segs_from(&v["content"]), sizes: u64s(&v["sizes"]) },
         "capture_stream" => Spec::Capture { pmax: g("preview_limit"), amax: g("cap"), content: segs_from(&v["content"]), sizes: u64s(&v["sizes"]) },
         "lifecycle" => Spec::Lifecycle { codes: u64s(&v["codes"]) },
+        "pty_run" => Spec::PtyRun { sched: v["sched"].as_array()?.iter().filter_map(|x| x.as_str().map(|s| s.to_string())).collect() },
+        "pty_task" => Spec::PtyTask(pty_from_json(v)?),
         "task" => Spec::Task { variant: g("variant"), out: segs_from(&v["stdout"]), err: segs_from(&v["stderr"]), cap: g("cap"), plimit: g("preview_limit"), exit: g("exit"), cancel_after_ms: v.get("cancel_after_ms").and_then(|x| x.as_u64()), page: g("page"), late_ms: g("late_ms") },
         "bash" => Spec::Bash { out: segs_from(&v["stdout"]), err: segs_from(&v["stderr"]), pmax: g("preview_limit"), amax: g("cap"), exit: g("exit"), late_ms: g("late_ms") },
         _ => return None,
@@ -675,7 +722,7 @@ async fn run_spec(s: &Spec) -> Obs {
         Spec::Pump { cap, plimit, content, sizes } => run_pump(*cap, *plimit, content, sizes, false).await,
         Spec::PtyPump { cap, plimit, content, sizes } => run_pump(*cap, *plimit, content, sizes, true).await,
         Spec::Capture { pmax, amax, content, sizes } => run_capture(*pmax, *amax, content, sizes).await,
-        Spec::Lifecycle { .. } | Spec::Task { .. } | Spec::Bash { .. } => Obs::default(),
+        Spec::Lifecycle { .. } | Spec::PtyRun { .. } | Spec::Task { .. } | Spec::Bash { .. } | Spec::PtyTask(..) => Obs::default(),
     }
 }
 
@@ -728,7 +775,14 @@ fn frame_code(e: &Value) -> u64 {
     match e.get("type").and_then(|x| x.as_str()).unwrap_or("") {
         "tool_task_spawned" => 0,
         "tool_task_status" => st(e),
-        "tool_task_output_delta" => if e.get("stream").and_then(|x| x.as_str()) == Some("stderr") { 11 } else { 10 },
+        "tool_task_output_delta" => match e.get("stream").and_then(|x| x.as_str()) {
+            Some("stderr") => 11,
+            Some("pty") => 12,
+            _ => 10,
+        },
+        "tool_task_stdin_written" => 30,
+        "tool_task_resized" => 31,
+        "tool_task_signalled" => 32,
         "tool_task_cancel_requested" => 2,
         "tool_task_cancelled" => 3,
         _ => 98,
@@ -736,8 +790,19 @@ fn frame_code(e: &Value) -> u64 {
 }
 /// the property's lifecycle clause, checked directly on the kind sequence (independent of the model)
 fn lifecycle_oracle(o: &mut Obs, codes: &[u64], spawnless_expected: bool) {
+    lifecycle_oracle_mode(o, codes, spawnless_expected, false)
+}
+/// pty = the stream of a PTY task: its output frames are `pty` deltas (12) and it may carry the acknowledgements
+/// of terminal input / resize / signal (30..32) while it runs; a pipes task has stdout / stderr deltas only
+fn lifecycle_oracle_mode(o: &mut Obs, codes: &[u64], spawnless_expected: bool, pty: bool) {
     let term = |c: u64| (22..=24).contains(&c);
-    if codes.iter().any(|c| *c >= 98) {
+    let foreign = |c: u64| c >= 98 || if pty { c == 10 || c == 11 } else { c == 12 || (30..=32).contains(&c) };
+    if let Some(i) = codes.iter().position(|c| (30..=32).contains(c)) {
+        if !codes[..i].contains(&1) {
+            o.fail("control_ack_before_running", format!("{codes:?}"));
+        }
+    }
+    if codes.iter().any(|c| foreign(*c)) {
         o.fail("task_stream_foreign_frame", format!("unexpected frame kind in a task stream: {codes:?}"));
     }
     let nterm = codes.iter().filter(|c| term(**c)).count();
@@ -758,7 +823,7 @@ fn lifecycle_oracle(o: &mut Obs, codes: &[u64], spawnless_expected: bool) {
     if codes.iter().filter(|c| **c == 1).count() > 1 {
         o.fail("running_reported_twice", format!("{codes:?}"));
     }
-    if let Some(i) = codes.iter().position(|c| *c == 10 || *c == 11) {
+    if let Some(i) = codes.iter().position(|c| (10..=12).contains(c)) {
         if !codes[..i].contains(&1) {
             o.fail("output_before_running", format!("{codes:?}"));
         }
@@ -1043,6 +1108,452 @@ async fn run_bash(w: &mut World, out: &Segs, err: &Segs, pmax: u64, amax: u64, e
     (o, derived)
 }
 
+
+// ------------------------------------------------------------------ real PTY tasks through the router
+fn pty_op_json(s: &PtyStep) -> Value {
+    match &s.op {
+        PtyOp::Stdin(b) => json!({"when": s.when, "op": "stdin", "bytes_hex": hex::encode(b)}),
+        PtyOp::Resize(r, c) => json!({"when": s.when, "op": "resize", "rows": r, "cols": c}),
+        PtyOp::Signal(g) => json!({"when": s.when, "op": "signal", "signal": g}),
+        PtyOp::Cancel => json!({"when": s.when, "op": "cancel"}),
+    }
+}
+fn pty_json(p: &PtySpec) -> Value {
+    json!({"kind": "pty_task", "shape": p.shape, "stdout": segs_json(&p.out), "stderr": segs_json(&p.err), "raw": p.raw, "cap": p.cap, "preview_limit": p.plimit,
+           "exit": p.exit, "ops": p.ops.iter().map(pty_op_json).collect::<Vec<_>>(), "page": p.page, "late_ms": p.late_ms, "rows": p.rows, "cols": p.cols})
+}
+fn pty_from_json(v: &Value) -> Option<PtySpec> {
+    let g = |k: &str| v.get(k).and_then(|x| x.as_u64()).unwrap_or(0);
+    let mut ops = vec![];
+    for o in v.get("ops").and_then(|x| x.as_array()).cloned().unwrap_or_default() {
+        let gg = |k: &str| o.get(k).and_then(|x| x.as_u64()).unwrap_or(0);
+        let op = match o.get("op")?.as_str()? {
+            "stdin" => PtyOp::Stdin(hex::decode(o["bytes_hex"].as_str()?).ok()?),
+            "resize" => PtyOp::Resize(gg("rows"), gg("cols")),
+            "signal" => PtyOp::Signal(o["signal"].as_str()?.to_string()),
+            "cancel" => PtyOp::Cancel,
+            _ => return None,
+        };
+        ops.push(PtyStep { when: gg("when"), op });
+    }
+    Some(PtySpec { shape: g("shape"), out: segs_from(&v["stdout"]), err: segs_from(&v["stderr"]), raw: v.get("raw").and_then(|x| x.as_bool()).unwrap_or(false), cap: g("cap"), plimit: g("preview_limit"),
+                   exit: g("exit"), ops, page: g("page"), late_ms: g("late_ms"), rows: g("rows"), cols: g("cols") })
+}
+/// what the terminal's output processing (OPOST|ONLCR, the default of a fresh pty) makes of program output
+fn onlcr(b: &[u8]) -> Vec<u8> {
+    let mut v = Vec::with_capacity(b.len() + 8);
+    for x in b {
+        if *x == b'\n' {
+            v.push(b'\r');
+        }
+        v.push(*x);
+    }
+    v
+}
+fn b64(b: &[u8]) -> String {
+    const T: &[u8; 64] = b"ABCDEFGHIJKLMNOPQRSTUVWXYZabcdefghijklmnopqrstuvwxyz0123456789+/";
+    let mut s = String::new();
+    for c in b.chunks(3) {
+        let n = (c[0] as u32) << 16 | (*c.get(1).unwrap_or(&0) as u32) << 8 | *c.get(2).unwrap_or(&0) as u32;
+        s.push(T[(n >> 18) as usize & 63] as char);
+        s.push(T[(n >> 12) as usize & 63] as char);
+        s.push(if c.len() > 1 { T[(n >> 6) as usize & 63] as char } else { '=' });
+        s.push(if c.len() > 2 { T[n as usize & 63] as char } else { '=' });
+    }
+    s
+}
+fn pty_available() -> bool {
+    std::fs::OpenOptions::new().read(true).write(true).open("/dev/ptmx").is_ok()
+}
+/// the command of a PTY case and the bytes the master side delivers when it runs to its end: program output
+/// after the terminal's output processing (LF -> CR LF unless the command switched it off), plus what the line
+/// discipline echoes of the input typed at the master (the line and its CR LF; `^C`, `^\` for the signal keys)
+fn pty_command(p: &PtySpec, n: u64) -> (String, Vec<u8>, Option<u64>) {
+    let (fo, fe) = (format!("o{n}.bin"), format!("e{n}.bin"));
+    let (outb, errb) = (expand(&p.out), expand(&p.err));
+    let tr = |b: Vec<u8>| if p.raw { b } else { onlcr(&b) };
+    let stty = if p.raw { "stty -opost; " } else { "" };
+    let exit = p.exit;
+    let d = format!("{}.{:03}", p.late_ms / 1000, p.late_ms % 1000);
+    let line: Vec<u8> = p.ops.iter().find_map(|s| match (&s.op, s.when) { (PtyOp::Stdin(b), 1) => Some(b.strip_suffix(b"\n").unwrap_or(b).to_vec()), _ => None }).unwrap_or_default();
+    match p.shape {
+        1 => (
+            format!("{stty}cat {fo}; (setsid sh -c 'touch dstart{n}; sleep {d}; cat {fe}; touch late{n}.done' &); while [ ! -e dstart{n} ]; do sleep 0.01; done; exit {exit}"),
+            tr([outb, errb].concat()),
+            Some(exit),
+        ),
+        2 => {
+            let mut e = vec![];
+            if !p.raw {
+                e.extend_from_slice(&line);
+                e.extend_from_slice(b"\r\n");
+            }
+            e.extend_from_slice(b"got:");
+            e.extend_from_slice(&line);
+            e.extend_from_slice(b"\r\n");
+            (format!("{}touch started{n}; IFS= read -r l; printf 'got:%s\\n' \"$l\"; exit {exit}", if p.raw { "stty -echo; " } else { "" }), e, Some(exit))
+        }
+        3 => {
+            let (r, c) = p.ops.iter().rev().find_map(|s| match (&s.op, s.when) { (PtyOp::Resize(r, c), 1) => Some((*r, *c)), _ => None }).unwrap_or((if p.rows == 0 { 24 } else { p.rows }, if p.cols == 0 { 80 } else { p.cols }));
+            (format!("touch started{n}; read x; stty size; exit {exit}"), format!("\r\n{r} {c}\r\n").into_bytes(), Some(exit))
+        }
+        4 => {
+            let sig = p.ops.iter().find_map(|s| match &s.op { PtyOp::Signal(g) => Some(g.trim().to_ascii_uppercase().trim_start_matches("SIG").to_string()), _ => None }).unwrap_or_default();
+            let (e, x): (&[u8], Option<u64>) = match sig.as_str() { "INT" => (b"^CI\r\n", Some(4)), "QUIT" => (b"^\\Q\r\n", Some(5)), _ => (b"", None) };
+            (format!("trap 'echo I; exit 4' INT; trap 'echo Q; exit 5' QUIT; touch started{n}; read x; echo no; exit 9"), e.to_vec(), x)
+        }
+        5 => (format!("{stty}cat {fo}; touch started{n}; read x; exit {exit}"), tr(outb), None),
+        6 => (format!("{stty}cat {fo}; exec >/dev/null 2>&1 </dev/null; sleep 0.2; exit {exit}"), tr(outb), Some(exit)),
+        7 | 8 | 9 => (format!("cat {fo}; exit {exit}"), vec![], None),
+        _ => {
+            if errb.is_empty() {
+                (format!("{stty}cat {fo}; exit {exit}"), tr(outb), Some(exit))
+            } else {
+                (format!("{stty}cat {fo}; sleep 0.03; cat {fe}; exit {exit}"), tr([outb, errb].concat()), Some(exit))
+            }
+        }
+    }
+}
+
+/// the schedule of the PTY waiter model that reproduces an observed frame sequence (one model action per event
+/// source: reader thread, control channel, cancel channel, child, the loop's arms): the model run on it must
+/// emit exactly the observed kinds and end
+fn pty_sched(codes: &[u64]) -> Vec<String> {
+    let ok = !codes.contains(&24);
+    let mut s: Vec<String> = vec![];
+    let mut running = false;
+    let mut closed = false;
+    let close = |s: &mut Vec<String>, closed: &mut bool| {
+        if !*closed {
+            *closed = true;
+            for a in ["QChildExit", "QSlaveClosed", "QReaderEof"] {
+                s.push(a.into());
+            }
+            s.push(format!("QLoopExit {ok}"));
+            s.push("QLoopChunk".into());
+            s.push("QLoopDone".into());
+        }
+    };
+    for c in codes {
+        match *c {
+            0 => s.push("QSpawnFrame".into()),
+            1 => {
+                running = true;
+                s.push("QStartRunning".into())
+            }
+            12 => {
+                s.push("QRead true".into());
+                s.push("QLoopChunk".into())
+            }
+            30..=32 => {
+                s.push(format!("QCtlSend {}", c - 30));
+                s.push("QLoopCtl true".into())
+            }
+            2 => {
+                s.push("QCancel".into());
+                s.push("QLoopCancel".into())
+            }
+            3 => {
+                close(&mut s, &mut closed);
+                s.push("QEmitCancelled".into())
+            }
+            22..=24 => {
+                if running {
+                    close(&mut s, &mut closed);
+                    s.push("QEmitFinal".into())
+                } else {
+                    s.push("QFail".into())
+                }
+            }
+            _ => {}
+        }
+    }
+    s
+}
+
+struct PtyRunOut {
+    o: Obs,
+    codes: Vec<u64>,
+    ended: bool,
+    notes: Vec<String>,
+}
+
+async fn pty_post(app: &axum::Router, id: &str, step: &PtyStep) -> u16 {
+    let (path, body) = match &step.op {
+        PtyOp::Stdin(b) => ("stdin", json!({"chunk_b64": b64(b)})),
+        PtyOp::Resize(r, c) => ("resize", json!({"rows": r, "cols": c})),
+        PtyOp::Signal(g) => ("signal", json!({"signal": g})),
+        PtyOp::Cancel => ("cancel", json!({"reason": "c17"})),
+    };
+    call_json(app, req("POST", &format!("/tasks/{id}/{path}"), Some(body))).await.0
+}
+
+async fn run_pty_task(w: &mut World, p: &PtySpec) -> PtyRunOut {
+    let mut o = Obs::default();
+    let mut notes = vec![];
+    w.n += 1;
+    let n = w.n;
+    std::fs::write(w.ws.join(format!("o{n}.bin")), expand(&p.out)).unwrap();
+    std::fs::write(w.ws.join(format!("e{n}.bin")), expand(&p.err)).unwrap();
+    let (command, expect, exit_expected) = pty_command(p, n);
+    let mut args = json!({"command": command, "cwd": ".", "artifact_max_bytes": p.cap, "max_bytes": p.plimit});
+    if p.rows > 0 {
+        args["rows"] = json!(p.rows);
+        args["cols"] = json!(p.cols);
+    }
+    match p.shape {
+        7 => args["env"] = json!({"PATH": "/nonexistent-c17"}),
+        8 => args["cwd"] = json!("/"),
+        _ => {}
+    }
+    let (st, created) = call_json(&w.app, req("POST", "/tasks", Some(json!({"tool": "bash", "args": args, "execution_mode": "pty"})))).await;
+    let id = created.get("task_id").and_then(|x| x.as_str()).unwrap_or("").to_string();
+    if id.is_empty() {
+        o.fail("task_spawn_rejected", format!("POST /tasks (pty) -> {st} {created}"));
+        return PtyRunOut { o, codes: vec![], ended: false, notes };
+    }
+    if p.shape == 9 {
+        // current-thread runtime: run_task has not been polled yet; put a directory where its log file goes
+        let (_, status) = call_json(&w.app, req("GET", &format!("/tasks/{id}"), None)).await;
+        let lid = status["artifacts"]["logs"]["pty"]["id"].as_str().unwrap_or("").to_string();
+        if lid.is_empty() {
+            o.fail("harness_io", format!("no pty log ref in GET /tasks/{{id}}: {status}"));
+        } else {
+            let _ = std::fs::create_dir_all(blob_path(&w.ws, &lid));
+        }
+    }
+    let live = sse_watch(&w.app, &id);
+    let mut accepted = [0u64; 4]; // 202s per op kind: stdin, resize, signal, cancel
+    let kind = |op: &PtyOp| match op { PtyOp::Stdin(_) => 0usize, PtyOp::Resize(..) => 1, PtyOp::Signal(_) => 2, PtyOp::Cancel => 3 };
+    let mut cancel_sent_while_unknown = false;
+    for s in p.ops.iter().filter(|s| s.when == 0) {
+        let st = pty_post(&w.app, &id, s).await;
+        notes.push(format!("pty_op_before_start={}:{st}", ["stdin", "resize", "signal", "cancel"][kind(&s.op)]));
+        if st == 202 {
+            accepted[kind(&s.op)] += 1;
+        }
+        if s.op == PtyOp::Cancel {
+            cancel_sent_while_unknown = true;
+            if st != 202 {
+                o.fail("cancel_not_accepted", format!("POST /tasks/{{id}}/cancel -> {st}"));
+            }
+        }
+    }
+    let mut last_action = std::time::Instant::now();
+    let has_terminal = |data: &Path, id: &str| task_frames(data, id).iter().any(|e| (22..=24).contains(&frame_code(e)));
+    if p.ops.iter().any(|s| s.when == 1) {
+        // the command says itself when it is running and about to block on the terminal
+        let started = w.ws.join(format!("started{n}"));
+        let mut up = false;
+        for _ in 0..24_000 {
+            if started.exists() {
+                up = true;
+                break;
+            }
+            if has_terminal(&w.data, &id) {
+                break;
+            }
+            tokio::time::sleep(Duration::from_millis(5)).await;
+        }
+        if up {
+            for s in p.ops.iter().filter(|s| s.when == 1) {
+                let st = pty_post(&w.app, &id, s).await;
+                notes.push(format!("pty_op_running={}:{st}", ["stdin", "resize", "signal", "cancel"][kind(&s.op)]));
+                if st == 202 {
+                    accepted[kind(&s.op)] += 1;
+                } else {
+                    o.fail("control_refused_while_running", format!("POST {:?} to a running PTY task -> {st}", s.op));
+                }
+            }
+            last_action = std::time::Instant::now();
+        }
+    }
+    // The task must END.  Watchdog: 120 s after the harness's last action on it (the commands need milliseconds
+    // of CPU; none sleeps longer than late_ms), never a retry.
+    let mut ended = false;
+    loop {
+        if has_terminal(&w.data, &id) {
+            ended = true;
+            break;
+        }
+        if last_action.elapsed() > Duration::from_millis(120_000 + p.late_ms) {
+            break;
+        }
+        tokio::time::sleep(Duration::from_millis(5)).await;
+    }
+    if !ended {
+        let codes: Vec<u64> = task_frames(&w.data, &id).iter().map(frame_code).collect();
+        let (_, status) = call_json(&w.app, req("GET", &format!("/tasks/{id}"), None)).await;
+        live.1.abort();
+        if codes.contains(&1) {
+            o.fail("pty_task_never_reaches_terminal_status", format!("PTY task `{command}`: no terminal status frame 120 s after the last action; frames {codes:?}, GET /tasks/{{id}} says {}", status["status"]));
+        } else {
+            o.fail("task_never_terminates", format!("PTY task never started running nor failed within 120 s: {codes:?}"));
+        }
+        return PtyRunOut { o, codes, ended, notes };
+    }
+    // after the end: every control operation and a cancel; nothing may follow the terminal frame
+    for s in p.ops.iter().filter(|s| s.when == 2) {
+        let st = pty_post(&w.app, &id, s).await;
+        notes.push(format!("pty_op_after_end={}:{st}", ["stdin", "resize", "signal", "cancel"][kind(&s.op)]));
+        if st == 202 {
+            accepted[kind(&s.op)] += 1;
+        }
+    }
+    if p.shape == 1 {
+        for _ in 0..12_000 {
+            if w.ws.join(format!("late{n}.done")).exists() {
+                break;
+            }
+            tokio::time::sleep(Duration::from_millis(5)).await;
+        }
+    }
+    tokio::time::sleep(Duration::from_millis(if p.shape == 1 { 700 } else if p.ops.iter().any(|s| s.when == 2) { 300 } else { 80 })).await;
+    let frames = task_frames(&w.data, &id);
+    let codes: Vec<u64> = frames.iter().map(frame_code).collect();
+    for (i, e) in frames.iter().enumerate() {
+        if u(e, "seq") != i as u64 {
+            o.fail("seq_not_consecutive", format!("frame {i} has seq {}", u(e, "seq")));
+        }
+    }
+    lifecycle_oracle_mode(&mut o, &codes, false, true);
+    {
+        live.1.abort();
+        let seen: Vec<Value> = live.0.lock().unwrap().clone();
+        let lc: Vec<u64> = seen.iter().map(frame_code).collect();
+        if seen.iter().enumerate().any(|(i, e)| u(e, "seq") != i as u64) {
+            o.fail("live_stream_seq_not_consecutive", format!("GET /tasks/{{id}}/events delivered seqs {:?}", seen.iter().map(|e| u(e, "seq")).collect::<Vec<_>>()));
+        }
+        if let Some(t) = lc.iter().position(|c| (22..=24).contains(c)) {
+            if t + 1 != lc.len() {
+                o.fail("frame_after_terminal_status", format!("the live stream (GET /tasks/{{id}}/events) delivers frames after the terminal status: {lc:?}"));
+            }
+        }
+    }
+    // acknowledgements only for requests that were accepted
+    for (k, name) in ["stdin_written", "resized", "signalled"].iter().enumerate() {
+        let acks = codes.iter().filter(|c| **c == 30 + k as u64).count() as u64;
+        if acks > accepted[k] {
+            o.fail("control_ack_without_request", format!("{acks} `{name}` frames for {} accepted requests: {codes:?}", accepted[k]));
+        }
+    }
+    let last = frames.iter().find(|e| (22..=24).contains(&frame_code(e))).unwrap();
+    if (7..=9).contains(&p.shape) {
+        if codes != [0, 24] {
+            o.fail("failure_not_reported_failed", format!("{codes:?}"));
+        }
+        if let Some(e) = last.get("error").and_then(|e| e.as_str()) {
+            o.enc_note = Some(format!("pty_refusal={}", e.split(|c: char| c == ':' || c == '(').next().unwrap_or("").trim()));
+        }
+        return PtyRunOut { o, codes, ended, notes };
+    }
+    let cancelled = codes.contains(&2);
+    if cancelled {
+        if frame_code(last) != 23 {
+            o.fail("exit_status_wrong", format!("cancel recorded, terminal status is {}", last["status"]));
+        }
+    } else {
+        if frame_code(last) != 22 {
+            o.fail("exit_status_wrong", format!("expected exited: {last}"));
+        }
+        if let Some(x) = exit_expected {
+            if last.get("exit_code").and_then(|v| v.as_u64()) != Some(x) {
+                o.fail("exit_status_wrong", format!("expected exited/{x}: {last}"));
+            }
+        }
+    }
+    if p.ops.iter().any(|s| s.op == PtyOp::Cancel && s.when < 2) {
+        notes.push(if cancelled { "pty_cancel=taken".into() } else { "pty_cancel=lost(202, never recorded)".into() });
+    }
+    let (sst, status) = call_json(&w.app, req("GET", &format!("/tasks/{id}"), None)).await;
+    if sst != 200 || status["artifacts"] != last["artifacts"] || status["exit_code"] != last["exit_code"] {
+        o.fail("status_differs_from_terminal_frame", format!("GET /tasks/{{id}} -> {sst} {status} after the terminal frame {last}"));
+    }
+    // the captured output = the bytes the master delivered, in order
+    let spawn = &frames[0];
+    let lid = spawn["artifacts"]["logs"]["pty"]["id"].as_str().unwrap_or("").to_string();
+    let sum = &last["artifacts"]["logs"]["pty"];
+    let blob = read_blob_settled(&mut o, &blob_path(&w.ws, &lid), u(sum, "bytes_stored"));
+    if !sum["error"].is_null() {
+        o.fail("summary_wrong", format!("pty summary of a task that ended carries an error: {sum}"));
+    }
+    let cap = p.cap;
+    // a cancel that is not tied to a known point of the command, or a kill signal, may cut the command short
+    let exact = !(cancelled && (cancel_sent_while_unknown || p.shape == 10));
+    if exact {
+        if blob != prefix(&expect, cap) {
+            let class = if p.raw || !expect.contains(&b'\r') { "stored_not_prefix" } else if blob == prefix(&onlcr_inverse(&expect), cap) { "pty_log_not_what_the_master_delivered" } else { "stored_not_prefix" };
+            o.fail(class, format!("pty log holds {} bytes that are not the first min(cap={cap}, {}) bytes the terminal delivered", blob.len(), expect.len()));
+        }
+        if u(sum, "bytes_total") != expect.len() as u64 || b(sum, "truncated") != (expect.len() as u64 > cap) {
+            o.fail("summary_wrong", format!("pty summary {sum} for {} bytes delivered, cap {cap}", expect.len()));
+        }
+    } else if blob.len() as u64 > cap || !expect.starts_with(&blob) {
+        o.fail("stored_not_prefix", format!("pty log of a cancelled task ({} bytes) is not a prefix of the terminal output within cap {cap}", blob.len()));
+    }
+    if u(sum, "bytes_stored") != blob.len() as u64 {
+        o.fail("summary_wrong", format!("pty summary {sum}, {} bytes in the log", blob.len()));
+    }
+    let fr = delta_frames(&frames, "pty");
+    let upto = u(sum, "bytes_total").min(expect.len() as u64) as usize;
+    frames_oracle(&mut o, &fr, blob.len() as u64, p.plimit, &expect[..upto], None);
+    notes.push(format!("pty_reads={}", match fr.len() { 0 => "0", 1 => "1", 2..=4 => "2-4", _ => "5+" }));
+    if fr.windows(2).any(|w| !is_char_boundary(&expect, u(&w[0].1, "bytes_total") as usize)) {
+        notes.push("pty_read_boundary_inside_character".into());
+    }
+    if p.page > 0 {
+        let page = p.page;
+        let (mut off, mut cat, mut done) = (0u64, vec![], false);
+        for _ in 0..(blob.len() as u64 / page.saturating_sub(3).max(1) + 8) {
+            let (st, pg) = call_json(&w.app, req("GET", &format!("/tasks/{id}/output?stream=pty&offset_bytes={off}&max_bytes={page}"), None)).await;
+            if st != 200 {
+                o.fail("page_error", format!("GET output -> {st}"));
+                break;
+            }
+            cat.extend_from_slice(pg["content"].as_str().unwrap_or("").as_bytes());
+            off += u(&pg, "bytes");
+            if u(&pg, "total_bytes") != blob.len() as u64 {
+                o.fail("page_total_wrong", format!("total_bytes {} for a {}-byte log", u(&pg, "total_bytes"), blob.len()));
+            }
+            if !b(&pg, "truncated") || u(&pg, "bytes") == 0 {
+                done = !b(&pg, "truncated");
+                break;
+            }
+        }
+        if std::str::from_utf8(&blob).is_ok() && page >= 4 {
+            if !done {
+                o.fail("page_walk_stalls", format!("page walk over the pty log with max_bytes {page} does not finish"));
+            } else if cat != blob {
+                o.fail("pages_split_character_lossy", format!("pages of max_bytes {page} over the pty log concatenate to {} bytes != the {} stored bytes", cat.len(), blob.len()));
+            }
+        }
+    }
+    PtyRunOut { o, codes, ended, notes }
+}
+/// CR LF -> LF (what a log would hold if it recorded the program's bytes instead of the terminal's)
+fn onlcr_inverse(b: &[u8]) -> Vec<u8> {
+    let mut v = vec![];
+    let mut i = 0;
+    while i < b.len() {
+        if b[i] == b'\r' && b.get(i + 1) == Some(&b'\n') {
+            i += 1;
+        }
+        v.push(b[i]);
+        i += 1;
+    }
+    v
+}
+
+/// the model case of a real PTY task: its frames, re-enacted by the PTY waiter model
+fn pty_case(out: &PtyRunOut) -> Vec<(Spec, Vec<u64>)> {
+    if out.codes.is_empty() || !out.ended {
+        return vec![];
+    }
+    let mut enc = vec![1, 1, 1];
+    enc.extend(out.codes.iter().copied());
+    vec![(Spec::PtyRun { sched: pty_sched(&out.codes) }, enc)]
+}
+
 // ------------------------------------------------------------------ generators
 const UNITS: [&str; 10] = ["a", "b", "\n", "\r\n", "é", "€", "😀", "\u{fffd}", " ", "z"];
 fn gen_text(r: &mut Rng, n: u64) -> Vec<u8> {
@@ -1191,6 +1702,8 @@ fn nontrivial(s: &Spec) -> bool {
         Spec::Trunc { bs, maxb } => (bs.len() as u64) > *maxb,
         Spec::Pump { content, sizes, .. } | Spec::PtyPump { content, sizes, .. } | Spec::Capture { content, sizes, .. } => sizes.len() > 1 && !expand(content).is_empty(),
         Spec::Lifecycle { codes } => codes.len() > 2,
+        Spec::PtyRun { sched } => sched.len() > 4,
+        Spec::PtyTask(p) => !expand(&p.out).is_empty() || !expand(&p.err).is_empty() || !p.ops.is_empty(),
         Spec::Task { out, err, .. } | Spec::Bash { out, err, .. } => !expand(out).is_empty() || !expand(err).is_empty(),
     }
 }
@@ -1204,6 +1717,8 @@ fn kind_name(s: &Spec) -> &'static str {
         Spec::PtyPump { .. } => "pty_pump",
         Spec::Capture { .. } => "capture_stream",
         Spec::Lifecycle { .. } => "lifecycle",
+        Spec::PtyRun { .. } => "pty_run",
+        Spec::PtyTask(..) => "pty_task",
         Spec::Task { .. } => "task",
         Spec::Bash { .. } => "bash",
     }
@@ -1261,11 +1776,140 @@ fn gen_late(r: &mut Rng, i: u64) -> Spec {
     }
 }
 
+
+/// PTY tasks: the i-th one of a run takes the i-th slot of a table that covers every output shape of the pipes
+/// cases (text with multi-byte characters and CR / LF, binary, nothing, bursts, large output against the cap, a
+/// left-behind daemon writing after the shell's exit), cooked and raw terminals, every control operation before
+/// the start / while running / after the end, the failure paths; content, limits and delays are drawn from the seed
+fn gen_pty(r: &mut Rng, i: u64) -> Spec {
+    let limits: [u64; 9] = [0, 1, 3, 4, 16, 64, 100, 8191, 8192];
+    let caps: [u64; 8] = [0, 1, 5, 33, 100, 8192, 20000, 1 << 20];
+    let mut p = PtySpec { shape: 0, out: vec![], err: vec![], raw: false, cap: 1 << 20, plimit: *r.pick(&limits[..]), exit: *r.pick(&[0u64, 0, 1, 3, 7]), ops: vec![], page: *r.pick(&[0u64, 4, 5, 64, 4096]), late_ms: 0, rows: 0, cols: 0 };
+    let n1 = 1 + r.below(40);
+    let line_units = ["a", "b", "é", "€", "😀", " ", "z", "Q"];
+    let mut line = String::new();
+    for _ in 0..(1 + r.below(12)) {
+        line.push_str(*r.pick(&line_units[..]));
+    }
+    let step = |when: u64, op: PtyOp| PtyStep { when, op };
+    let slot = if i < 24 { i } else { r.below(24) };
+    match slot {
+        0 => p.out = gen_content(r, &[p.plimit.min(200), 20, 60], true),
+        1 => {
+            p.raw = true;
+            p.out = vec![(gen_text(r, n1), 1)];
+            p.cap = *r.pick(&caps[..]);
+        }
+        2 => {
+            // a long run of one multi-byte character after an odd prefix: the terminal delivers it in several
+            // reads, some of which end inside a character
+            let unit = *r.pick(&["é", "€", "😀"]);
+            p.out = vec![(b"x".to_vec(), 1 + r.below(2)), (unit.as_bytes().to_vec(), *r.pick(&[4096u64, 8192, 20000]) / unit.len() as u64 + r.below(3))];
+            p.plimit = *r.pick(&[64u64, 8191, 8192]);
+            p.raw = r.chance(1, 2);
+        }
+        3 => {
+            let k = 20 + r.below(200);
+            p.out = vec![(gen_binary(r, k), 1)]
+        }
+        4 => {}
+        5 => {
+            p.out = gen_content(r, &[100, 200], true);
+            p.err = vec![(gen_text(r, n1), 1)];
+            p.cap = *r.pick(&caps[..6]);
+        }
+        6 => {
+            p.shape = 1;
+            p.out = if r.chance(1, 4) { vec![] } else { vec![(gen_text(r, n1), 1)] };
+            let k = 1 + r.below(20);
+            p.err = vec![(gen_text(r, k), 1)];
+            p.late_ms = 1200 + r.below(900);
+            p.raw = r.chance(1, 3);
+        }
+        7 | 8 | 23 => {
+            p.shape = 2;
+            p.raw = slot == 8;
+            if slot == 23 {
+                p.plimit = *r.pick(&[0u64, 1, 3, 4]);
+            }
+            p.ops = vec![step(1, PtyOp::Stdin(format!("{line}\n").into_bytes()))];
+        }
+        9 => {
+            p.shape = 3;
+            p.ops = vec![step(1, PtyOp::Resize(1 + r.below(200), 1 + r.below(300))), step(1, PtyOp::Stdin(b"\n".to_vec()))];
+        }
+        10 => {
+            p.shape = 3;
+            p.rows = 1 + r.below(100);
+            p.cols = 1 + r.below(250);
+            p.ops = vec![step(1, PtyOp::Stdin(b"\n".to_vec()))];
+        }
+        11 => {
+            p.shape = 4;
+            p.ops = vec![step(1, PtyOp::Signal((*r.pick(&["SIGINT", "int", "INT", " sigint "])).to_string()))];
+        }
+        12 => {
+            p.shape = 4;
+            p.ops = vec![step(1, PtyOp::Signal((*r.pick(&["SIGQUIT", "quit"])).to_string()))];
+        }
+        13 => {
+            p.shape = 4;
+            p.ops = vec![step(1, PtyOp::Signal((*r.pick(&["SIGTERM", "KILL", "hup"])).to_string()))];
+        }
+        14 => {
+            p.shape = 5;
+            p.out = gen_content(r, &[p.plimit.min(200), 30], true);
+            p.raw = r.chance(1, 3);
+            p.ops = vec![step(1, PtyOp::Cancel)];
+            if r.chance(1, 2) {
+                p.ops.push(step(2, PtyOp::Cancel));
+            }
+        }
+        15 => {
+            p.shape = 6;
+            p.out = vec![(gen_text(r, n1), 1)];
+        }
+        16 | 17 | 18 => {
+            p.shape = 7 + (slot - 16);
+            p.out = vec![(gen_text(r, 5), 1)];
+        }
+        19 => {
+            p.shape = 10;
+            p.out = vec![(gen_text(r, n1), 1)];
+            p.ops = vec![step(0, PtyOp::Cancel)];
+        }
+        20 => {
+            p.out = vec![(gen_text(r, n1), 1)];
+            p.ops = vec![
+                step(0, PtyOp::Resize(30, 100)),
+                step(2, PtyOp::Stdin(b"late\n".to_vec())),
+                step(2, PtyOp::Resize(10, 10)),
+                step(2, PtyOp::Signal("SIGINT".into())),
+                step(2, PtyOp::Cancel),
+            ];
+        }
+        21 => {
+            p.out = gen_content(r, &[60, 200], true);
+            p.ops = vec![step(0, PtyOp::Cancel)];
+        }
+        _ => {
+            // CR / LF in every combination, cooked: the log holds what the terminal made of it
+            p.out = vec![((*r.pick(&["a\nb\r\nc\n", "\n\n\r\n", "x\ry\n", "é\n€\r\n😀"])).as_bytes().to_vec(), 1 + r.below(50))];
+            p.cap = *r.pick(&caps[..]);
+        }
+    }
+    Spec::PtyTask(p)
+}
+
 fn main() {
+    // PTY tasks are policy-gated; the router reads the switch when it is built
+    std::env::set_var("RIP_TASKS_ALLOW_PTY", "1");
     let a = parse_args();
     let mut res = RunResult::new("C17", &a);
     res.rule = "direct-drive cases = (caps, preview limits, content, chunking) from a seeded generator: content valid multi-byte text / biased binary / large repeated patterns around 8192; chunk sizes 1, small, 8191/8192, whole; caps and limits incl. 0; random (offset,max_bytes) pages and page walks; real runs = background tasks through the router (POST /tasks, cancel at random delays, pre-/post-spawn failures, GET output page walks) and foreground bash tool runs with generated stdout/stderr volumes; non-trivial = more than one chunk or multi-byte content or an actual truncation or a real run with output; distinct by hash of the case".into();
     let (n, nreal, nlate) = if a.thorough() { (6000, 700, 18) } else { (600, 70, 4) };
+    let npty: u64 = if a.thorough() { 144 } else { 30 };
+    let pty_ok = pty_available();
     let rt = tokio::runtime::Builder::new_multi_thread().worker_threads(4).enable_all().build().unwrap();
     let mut r = Rng::new(a.seed);
     let mut w = CaseWriter::new(&a.out, "Model.Capture", "check_case", "model_obs", 60);
@@ -1308,6 +1952,9 @@ fn main() {
             let out = vec![(gen_text(&mut r, 12), 1)];
             all.push(Spec::Task { variant: 8, out, err: vec![], cap: 1 << 20, plimit: 64, exit: 0, cancel_after_ms: Some(0), page: 0, late_ms: 0 });
         }
+        for i in 0..npty {
+            all.push(gen_pty(&mut r, i));
+        }
     }
     // the late-writer tasks cost seconds of wall time each (and nothing else): they are started now,
     // each in a world of its own (tasks of one world share the workspace lock), and run concurrently
@@ -1329,6 +1976,34 @@ fn main() {
                 let mut wd = World::new();
                 run_bash(&mut wd, &out, &err, pmax, amax, exit, late_ms).await
             }));
+        }
+    }
+    // PTY tasks: a world each (an unfinished task would keep the workspace lock), started now; the ones that need
+    // the harness to act before run_task is first polled get a current-thread runtime (and a thread) of their own
+    let mut started_pty: std::collections::HashMap<usize, tokio::task::JoinHandle<PtyRunOut>> = Default::default();
+    let mut threads_pty: std::collections::HashMap<usize, std::thread::JoinHandle<PtyRunOut>> = Default::default();
+    for (i, s) in all.iter().enumerate() {
+        if let Spec::PtyTask(p) = s {
+            if !pty_ok {
+                continue;
+            }
+            let p = p.clone();
+            if p.shape == 9 || p.shape == 10 {
+                threads_pty.insert(i, std::thread::spawn(move || {
+                    let rt1 = tokio::runtime::Builder::new_current_thread().enable_all().build().unwrap();
+                    let out = rt1.block_on(async move {
+                        let mut wd = World::new();
+                        run_pty_task(&mut wd, &p).await
+                    });
+                    rt1.shutdown_background();
+                    out
+                }));
+            } else {
+                started_pty.insert(i, rt.spawn(async move {
+                    let mut wd = World::new();
+                    run_pty_task(&mut wd, &p).await
+                }));
+            }
         }
     }
     // early cancel: a current-thread runtime of its own (a thread each), so that nothing polls the spawned
@@ -1393,6 +2068,31 @@ fn main() {
                     })
                 }
             }
+            Spec::PtyTask(p) => {
+                res.bump(&format!("pty_shape={}{}", p.shape, if p.raw { "/raw" } else { "" }));
+                let got: Result<PtyRunOut, Box<dyn std::any::Any + Send>> = if let Some(h) = started_pty.remove(&i) {
+                    rt.block_on(h).map_err(|e| Box::new(e.to_string()) as Box<dyn std::any::Any + Send>)
+                } else if let Some(h) = threads_pty.remove(&i) {
+                    h.join()
+                } else {
+                    // no PTY on this machine (/dev/ptmx cannot be opened): the case is skipped, with a note
+                    res.bump("pty=skipped(no /dev/ptmx)");
+                    Ok(PtyRunOut { o: Obs::default(), codes: vec![], ended: false, notes: vec![] })
+                };
+                got.map(|out| {
+                    for n in &out.notes {
+                        res.bump(n);
+                    }
+                    if let Some(n) = &out.o.enc_note {
+                        res.bump(n);
+                    }
+                    if let Some(c) = out.codes.iter().find(|c| (22..=24).contains(*c)) {
+                        res.bump(&format!("pty_task_end={c}"));
+                    }
+                    let cases = pty_case(&out);
+                    (out.o, cases)
+                })
+            }
             Spec::Bash { late_ms: 1.., .. } if started_bash.contains_key(&i) => {
                 res.bump("late_writer=bash");
                 rt.block_on(started_bash.remove(&i).unwrap()).map_err(|e| Box::new(e.to_string()) as Box<dyn std::any::Any + Send>)
@@ -1448,11 +2148,16 @@ fn main() {
         }
     }
     drop(world);
+    if !pty_ok {
+        println!("c17: no PTY available (/dev/ptmx cannot be opened): PTY task cases skipped");
+    }
     w.flush();
     res.distinct_nontrivial = distinct.count();
     res.case_files = w.files.iter().map(|p| p.display().to_string()).collect();
     res.write(&a.out);
     println!("c17: {} cases, {} distinct non-trivial, {} oracle violations, {} panics", res.evaluations, res.distinct_nontrivial, res.oracle_violations.len(), res.impl_panics);
+    // a PTY task that never ends leaves its reader thread blocked in read(2): do not wait for it
+    rt.shutdown_background();
 }
 
 /// a real task's kind sequence becomes a lifecycle case for the model's recogniser: the expected
